@@ -21,4 +21,8 @@ fi
 if [ ! -d /verif/target/feat-rel ]; then
   cargo build --offline --quiet --release -p featdrv --no-default-features --features Debug,Clone,Copy,PartialEq,Eq,PartialOrd,Ord,Hash,Default,Deref,DerefMut,Into --target-dir /verif/target/feat-rel 2>&1 | tail -1
 fi
+# ... and with a build in which syn's `full` feature is on (as it is whenever anything else in the user's build graph asks for it)
+if [ ! -d /verif/target/feat-full ]; then
+  cargo build --offline --quiet -p featdrv --no-default-features --features Debug,Clone,Copy,PartialEq,Eq,PartialOrd,Ord,Hash,Default,Deref,DerefMut,Into,full --target-dir /verif/target/feat-full 2>&1 | tail -1
+fi
 echo "setup done"
